@@ -16,7 +16,7 @@ from gen import resfile as rf
 import impl_model as im
 from props import c06
 
-THEOREMS = ['C07_write_order', 'C07_raw_verbatim', 'C07_deleted_not_written', 'C07_includes_not_written', 'C07_include_cycles', 'C07_include_inserted', 'C07_until_end_spec', 'C07_until_end_example',
+THEOREMS = ['C07_write_order', 'C07_raw_verbatim', 'C07_deleted_not_written', 'C07_includes_not_written', 'C07_include_cycles', 'C07_include_inserted', 'C07_until_end_spec', 'C07_until_end_example', 'C07_include_name_example',
             'C07_passthrough_fixpoint', 'C07_scaled_denote', 'C07_u_fixed_point', 'C07_fvars_written_shape', 'C07_fvars_written_ignores_included',
             'C07_fvars_written_example', 'C07_expand_example']
 IMPORTS = 'From SX Require Import Base.Prelude Base.Str Model.Wrap Model.Writer.\n'
@@ -178,6 +178,7 @@ def run(ctx):
             nrest_inc = 0
             sandwich = False
             ended = []
+            inc_lines = {}
             pos = [i for i, l in enumerate(lines) if l.startswith('FVAR')][-1] + 1
             for j in range(rng.randint(1, 2)):
                 name = 'inc%d.txt' % j
@@ -204,7 +205,10 @@ def run(ctx):
                         body.append('W%d 1 0.5 0.5 0.5 11.00000 0.05' % j)
                     ended.append(name)
                 files[name] = body
-                lines.insert(pos, '+' + name)
+                # the include line as SHELXL accepts it: blanks behind the name, '++' (the variant that also copies the file into the .res)
+                inc_line = rng.choice(['+' + name, '+' + name, '+' + name + '  ', '++' + name, '+' + name + ' '])
+                inc_lines[name] = inc_line
+                lines.insert(pos, inc_line)
                 pos += 1
                 if sandwich and j == 0:
                     # the free variables of the main file continue behind the include line (they coalesce at the first FVAR line on
@@ -257,7 +261,7 @@ def run(ctx):
                                      len(texts[0]), [len(t) for t in texts])
             elif len(set(counts)) != 1 or counts[0][0] != n0:
                 common.add_violation(ctx, 'content of include files accumulates over read/write cycles', dict(case, written=texts[0]), (n0,), counts)
-            elif any(('+' + n) not in texts[0].split('\n') for n in files if not n.startswith('nest')):
+            elif any(inc_lines[n].rstrip() not in [l_.rstrip() for l_ in texts[0].split('\n')] for n in files if not n.startswith('nest')):
                 common.add_violation(ctx, "the '+filename' line is not kept in the written file", dict(case, written=texts[0]), sorted(files), texts[0][:300])
             elif incl_before != {n: open(os.path.join(tmp, n)).read() for n in files}:
                 common.add_violation(ctx, 'an include file was modified by writing the main file', case, 'unchanged', 'changed')
